@@ -53,6 +53,7 @@ import (
 
 	hraft "github.com/hashicorp/raft"
 	cid "github.com/ipfs/go-cid"
+	ds "github.com/ipfs/go-datastore"
 	libp2p "github.com/libp2p/go-libp2p"
 	crypto "github.com/libp2p/go-libp2p-core/crypto"
 	peer "github.com/libp2p/go-libp2p-core/peer"
@@ -358,7 +359,7 @@ func raftCfg(dataFolder string, keep int) *raft.Config {
 	return cfg
 }
 
-func mkConfigs(base string, keep int) (*cmdutils.Configs, error) {
+func mkConfigs(base string, keep int, customNS bool) (*cmdutils.Configs, error) {
 	cl := &ipfscluster.Config{}
 	if err := cl.Default(); err != nil {
 		return nil, err
@@ -375,11 +376,15 @@ func mkConfigs(base string, keep int) (*cmdutils.Configs, error) {
 	lc := &leveldb.Config{}
 	lc.Default()
 	lc.SetBaseDir(base)
+	if customNS { // otherwise the components' defaults, "/r" and "/c"
+		rc.DatastoreNamespace = "/verif/raftns"
+		cc.DatastoreNamespace = "/verif/crdtns"
+	}
 	return &cmdutils.Configs{Cluster: cl, Raft: rc, Crdt: cc, Badger: bc, LevelDB: lc}, nil
 }
 
-func stateMgr(kind, base string, ident *config.Identity) (cmdutils.StateManager, *cmdutils.Configs, error) {
-	cfgs, err := mkConfigs(base, 3)
+func stateMgr(kind, base string, ident *config.Identity, customNS bool) (cmdutils.StateManager, *cmdutils.Configs, error) {
+	cfgs, err := mkConfigs(base, 3, customNS)
 	if err != nil {
 		return nil, nil, err
 	}
@@ -397,8 +402,15 @@ func stateMgr(kind, base string, ident *config.Identity) (cmdutils.StateManager,
 	return m, cfgs, err
 }
 
+// namespaces the real consensus components keep their state under, plus none
+var namespaces = []string{"", raft.DefaultDatastoreNamespace, crdt.DefaultDatastoreNamespace}
+
 func memState(pins []*api.Pin) (state.State, error) {
-	st, err := dsstate.New(inmem.New(), "", dsstate.DefaultHandle())
+	return nsState(inmem.New(), "", pins)
+}
+
+func nsState(store ds.Datastore, ns string, pins []*api.Pin) (state.State, error) {
+	st, err := dsstate.New(store, ns, dsstate.DefaultHandle())
 	if err != nil {
 		return nil, err
 	}
@@ -474,11 +486,14 @@ func (e *env) runXfer(s *script) error {
 	src := n.projAll(srcPins)
 
 	if s.Path == "serial" {
-		a, err := memState(srcPins)
+		rng := rand.New(rand.NewSource(h64("serial", e.seed, s.ID)))
+		// (1) dsstate Marshal -> Unmarshal, source and target under seeded namespaces
+		nsA, nsB := namespaces[rng.Intn(len(namespaces))], namespaces[rng.Intn(len(namespaces))]
+		a, err := nsState(inmem.New(), nsA, srcPins)
 		if err != nil {
 			return err
 		}
-		b, err := memState(tgtPins)
+		b, err := nsState(inmem.New(), nsB, tgtPins)
 		if err != nil {
 			return err
 		}
@@ -497,8 +512,44 @@ func (e *env) runXfer(s *script) error {
 		if err != nil {
 			return err
 		}
-		e.emit("sid", s.ID, "m", "xfer", "act", "Reserialize", "src", src, "pre", n.projAll(pre),
-			"post", n.projAll(post), "err", errStr(opErr), "fresh", len(pre) == 0)
+		e.emit("sid", s.ID, "m", "xfer", "act", "Reserialize", "via", "dsstate", "src", src, "pre", n.projAll(pre),
+			"post", n.projAll(post), "err", errStr(opErr), "fresh", len(pre) == 0, "ns", nsA+">"+nsB)
+
+		// (2) the same through Raft: SnapshotSave, then OfflineState into a store that already holds the
+		// target's pins under the namespace of the Raft configuration (default "/r" or a custom one)
+		folder := filepath.Join(dir, "raft")
+		cfg := raftCfg(folder, 3)
+		if rng.Intn(3) == 0 {
+			cfg.DatastoreNamespace = "/verif/ns"
+		}
+		_, id := keyFor("serial", e.seed, s.ID)
+		sst, err := nsState(inmem.New(), nsA, srcPins)
+		if err != nil {
+			return err
+		}
+		store := inmem.New()
+		tst, err := nsState(store, cfg.DatastoreNamespace, tgtPins)
+		if err != nil {
+			return err
+		}
+		pre2, err := tst.List(context.Background())
+		if err != nil {
+			return err
+		}
+		var post2 []*api.Pin
+		opErr = guard(func() error {
+			if err := raft.SnapshotSave(cfg, sst, []peer.ID{id}); err != nil {
+				return err
+			}
+			ost, err := raft.OfflineState(cfg, store)
+			if err != nil {
+				return err
+			}
+			post2, err = ost.List(context.Background())
+			return err
+		})
+		e.emit("sid", s.ID, "m", "xfer", "act", "Reserialize", "via", "snapshot", "src", src, "pre", n.projAll(pre2),
+			"post", n.projAll(post2), "err", errStr(opErr), "fresh", len(pre2) == 0, "ns", nsA+">"+cfg.DatastoreNamespace)
 		return nil
 	}
 
@@ -511,11 +562,11 @@ func (e *env) runXfer(s *script) error {
 	if s.SKind == "" {
 		s.SKind = s.Kind
 	}
-	ma_, cfA, err := stateMgr(s.SKind, da, identA)
+	ma_, cfA, err := stateMgr(s.SKind, da, identA, h64("nsA", e.seed, s.ID)%4 == 0)
 	if err != nil {
 		return err
 	}
-	mb, cfB, err := stateMgr(s.Kind, db, identB)
+	mb, cfB, err := stateMgr(s.Kind, db, identB, h64("nsB", e.seed, s.ID)%4 == 0)
 	if err != nil {
 		return err
 	}
@@ -559,9 +610,9 @@ func (e *env) runXfer(s *script) error {
 		"pre", n.projAll(pre), "post", n.projAll(post), "err", errStr(impErr))
 	// the imported state is a Raft snapshot: a peer started on it must hold the pinset
 	if s.Kind == "raft" && impErr == nil && (hx.Thorough() || h64("startpeer", e.seed, s.ID)%3 == 0) {
-		got, opErr, infra := startPeer(cfB.Raft.GetDataFolder(), privB)
+		got, opErr, infra := startPeer(cfB.Raft.GetDataFolder(), privB, cfB.Raft.DatastoreNamespace, nil)
 		if infra != nil {
-			got, opErr, infra = startPeer(cfB.Raft.GetDataFolder(), privB)
+			got, opErr, infra = startPeer(cfB.Raft.GetDataFolder(), privB, cfB.Raft.DatastoreNamespace, nil)
 		}
 		if infra != nil {
 			return infra
@@ -588,7 +639,7 @@ func snapMeta(folder string) (bool, int, int) {
 	return true, int(metas[0].Index), int(metas[0].Term)
 }
 
-func startPeer(folder string, priv crypto.PrivKey) ([]*api.Pin, error, error) {
+func startPeer(folder string, priv crypto.PrivKey, ns string, stray []*api.Pin) ([]*api.Pin, error, error) {
 	ctx := context.Background()
 	h, err := libp2p.New(ctx, libp2p.Identity(priv), libp2p.ListenAddrStrings("/ip4/127.0.0.1/tcp/0"))
 	if err != nil {
@@ -596,7 +647,16 @@ func startPeer(folder string, priv crypto.PrivKey) ([]*api.Pin, error, error) {
 	}
 	defer h.Close()
 	cfg := raftCfg(folder, 3)
-	cc, err := raft.NewConsensus(h, cfg, inmem.New(), false)
+	if ns != "" {
+		cfg.DatastoreNamespace = ns
+	}
+	store := inmem.New()
+	if len(stray) > 0 { // the store is not empty when the snapshot gets restored
+		if _, err := nsState(store, cfg.DatastoreNamespace, stray); err != nil {
+			return nil, nil, err
+		}
+	}
+	cc, err := raft.NewConsensus(h, cfg, store, false)
 	if err != nil {
 		return nil, err, nil
 	}
@@ -652,14 +712,21 @@ func (e *env) runSnap(s *script) error {
 			})
 			e.emit("sid", s.ID, "m", "snap", "act", "Offline", "saved", saved, "got", n.projAll(got), "err", errStr(opErr))
 		case "StartPeer":
-			got, opErr, infra := startPeer(folder, priv)
+			// every other peer is started on a store that already holds a pin the snapshot does not have
+			// (only when there is a snapshot to restore: otherwise the store IS the state)
+			var stray []*api.Pin
+			if had, _, _ := snapMeta(folder); had && h64("stray", e.seed, s.ID)%2 == 0 {
+				stray = []*api.Pin{n.pin("c9", "vS")}
+			}
+			got, opErr, infra := startPeer(folder, priv, "", stray)
 			if infra != nil {
-				got, opErr, infra = startPeer(folder, priv) // once more (loaded machine)
+				got, opErr, infra = startPeer(folder, priv, "", stray) // once more (loaded machine)
 			}
 			if infra != nil {
 				return infra
 			}
-			e.emit("sid", s.ID, "m", "snap", "act", "StartPeer", "saved", saved, "got", n.projAll(got), "err", errStr(opErr))
+			e.emit("sid", s.ID, "m", "snap", "act", "StartPeer", "saved", saved, "got", n.projAll(got), "err", errStr(opErr),
+				"dirty", len(stray) > 0)
 			// the peer took a snapshot when it shut down: the folder must still read the same
 			var again []*api.Pin
 			opErr = guard(func() error {
